@@ -1,6 +1,8 @@
 import Vflow.Proofs.SkipV9
 import Vflow.Proofs.SkipIpfix
 import Vflow.Props.C02Flow
+import Vflow.Gen.Sites
+import Vflow.Spec.Sites
 /-!
 # C09 — an undecodable set never corrupts its neighbours; truncation never fabricates
 
@@ -120,8 +122,9 @@ theorem Ipfix.truncation_prefix_state (c : Cache) (addr bs : Bytes) (n : Nat) :
 the message are a prefix of the records decoded from the whole message.
 
 The hypothesis excludes exactly the inputs on which the *full* decode returns `(nil, err)` (short
-read, bad version, bad set length, set id 0/1 in the record loop, empty data record, or the model's
-`fuel`); it cannot be dropped (`Ipfix.truncation_prefix_unconditional_counterexample`).  No separate
+read, bad version, bad set length, set id 0 in the record loop, or the model's `fuel` — since the F30
+repair no longer a data set for a template without fields or a set with id 1: `Ipfix.decodeSet_skips_noFields`);
+it cannot be dropped (`Ipfix.truncation_prefix_unconditional_counterexample`).  No separate
 fuel hypothesis is needed. -/
 theorem Ipfix.truncation_prefix (c : Cache) (addr bs : Bytes) (n : Nat)
     {m : Hdr × List Record × List Err} (hok : (Ipfix.decode c addr bs).1 = .ok m) :
@@ -161,7 +164,11 @@ example : Ipfix.recordsOf (Ipfix.decode [] exAddr (ipfixMsg.take 46)).1 <+:
 for a cache `c` when `sid > 255` and `c` holds no template `sid` for the exporter, or when `sid` is
 not a template / data set id (IPFIX: `4 ≤ sid ≤ 255`; NetFlow v9: `2 ≤ sid ≤ 255`, ids 2 and 3
 taking the `zeroRec` path).  The third kind of the property text — a data set whose template names
-an element missing from the information model — is `decodeSet_skips_unknownElem`.  The cache meant
+an element missing from the information model — is `decodeSet_skips_unknownElem`.  A fourth kind (F30):
+a data set whose template has no field specifier at all — a template record with field count 0 (the
+withdrawal format) that sat in a template set in front of other records is installed as such a template —
+is `Ipfix.decodeSet_skips_noFields` (`Ipfix.NoFields`; NetFlow v9 reports it as `zeroRec`, see the example
+after `V9.decodeSet_skips`).  The cache meant
 is always the cache *at the point where the set is met* (earlier sets of the same message may have
 added templates). -/
 
@@ -326,7 +333,7 @@ example :
 
 /-- **C09(a), Ipfix, one set.**  On an undecodable set followed by any `rest`, `decodeSet` changes the
 decoder state only by moving the reader over the set: cache and records are untouched; the error slot
-holds the non-fatal `Ipfix.skipErr` (`unknownTpl` for `sid > 255`, nothing for a reserved id `4 ≤ sid ≤ 255`; set ids 0 and 1 are *not* skipped by the IPFIX decoder, they end the decode with the fatal `invalidSet` / `emptyRec`) — never a fatal error.  Side conditions: the set is
+holds the non-fatal `Ipfix.skipErr` (`unknownTpl` for `sid > 255`, nothing for a reserved id `4 ≤ sid ≤ 255`; set id 0 is *not* skipped by the IPFIX decoder, it ends the decode with the fatal `invalidSet`; set id 1 is skipped since the F30 repair: `Ipfix.decodeSet_skips_noFields`) — never a fatal error.  Side conditions: the set is
 encodable (`sid`, `4 + |body|` fit in 16 bits) and the loop fuel is positive (the outer loop passes
 `remaining + 1`).  Nothing is assumed about `rest`. -/
 theorem Ipfix.decodeSet_skips (addr : Bytes) (fuel : Nat) (st : Ipfix.St) (sid : Nat) (body rest : Bytes)
@@ -338,6 +345,29 @@ theorem Ipfix.decodeSet_skips (addr : Bytes) (fuel : Nat) (st : Ipfix.St) (sid :
 
 theorem Ipfix.skipErr_nonfatal (sid : Nat) (e : Err) (h : Ipfix.skipErr sid = some e) :
     e.nonfatal = true := Vflow.Ipfix.skipErr_nonfatal sid e h
+
+/-- the errors after which the IPFIX `Decode` goes on (`nonfatalError{…}` in the source): those it shares with
+NetFlow v9 and, since the F30 repair, `emptyRec` ("failed to decodeData") -/
+theorem Ipfix.nonfatalErr_iff (e : Err) : Ipfix.nonfatalErr e = true ↔ (e.nonfatal = true ∨ e = .emptyRec) := by
+  cases e <;> simp [Ipfix.nonfatalErr, Err.nonfatal]
+
+/-- **C09(a), Ipfix, one set, template without fields (F30).**  `Ipfix.NoFields c addr sid`: the template cached
+under `sid > 255` for this exporter has neither scope nor field specifiers — what `decodeSet` installs for a
+template record with field count 0 (RFC 7011 §8.1 withdrawal format) that is followed by other octets in its
+template set — or `sid = 1` (decoded with the zero template, the same code path).  Such a set, with **any** body,
+in front of any `rest`, is skipped exactly like an undecodable one: cache and records are untouched, the reader
+moves over the set, and the error slot holds the non-fatal `emptyRec` when the body is long enough for the record
+loop to be entered (1 octet; 5 for set id 1) and nothing otherwise.  Before the repair `emptyRec` was fatal:
+`Decode` returned `(nil, "failed to decodeData")` and the records of every other set of the message were lost. -/
+theorem Ipfix.decodeSet_skips_noFields (addr : Bytes) (fuel : Nat) (st : Ipfix.St) (sid : Nat) (body rest : Bytes)
+    (hsid : sid < 65536) (hlen : 4 + body.length < 65536) (hfuel : 0 < fuel)
+    (hrem : st.r.rem = setBytes sid body ++ rest) (hn : Ipfix.NoFields st.cache addr sid) :
+    Ipfix.decodeSet addr fuel st =
+      ({ st with r := ⟨rest, st.r.cnt + (setBytes sid body).length⟩ }, Ipfix.emptyErr sid body) :=
+  Vflow.Ipfix.decodeSet_skips_noFields addr fuel st sid body rest hsid hlen hfuel hrem hn
+
+theorem Ipfix.emptyErr_nonfatal (sid : Nat) (body : Bytes) (e : Err) (h : Ipfix.emptyErr sid body = some e) :
+    Ipfix.nonfatalErr e = true := Vflow.Ipfix.emptyErr_nonfatal sid body e h
 
 /-- **C09(a), Ipfix, one set, element missing from the information model.**  A data set whose
 template `t` is in the cache, with a body of at least `minRecLen t` octets (one shortest record: the record
@@ -364,6 +394,12 @@ theorem Ipfix.skipped_of_undecodable (addr : Bytes) (c : Cache) (sid : Nat) (bod
     (hsid : sid < 65536) (hlen : 4 + body.length < 65536) (hu : Ipfix.Undecodable c addr sid) :
     Ipfix.Skipped addr c (setBytes sid body) (Ipfix.skipErr sid) :=
   Vflow.Ipfix.skipped_of_undecodable addr c sid body hsid hlen hu
+
+/-- … a data set for a template without fields, or a set with id 1 (F30) … -/
+theorem Ipfix.skipped_of_noFields (addr : Bytes) (c : Cache) (sid : Nat) (body : Bytes)
+    (hsid : sid < 65536) (hlen : 4 + body.length < 65536) (hn : Ipfix.NoFields c addr sid) :
+    Ipfix.Skipped addr c (setBytes sid body) (Ipfix.emptyErr sid body) :=
+  Vflow.Ipfix.skipped_of_noFields addr c sid body hsid hlen hn
 
 /-- … and a data set that runs into an element missing from the information model -/
 theorem Ipfix.skipped_of_unknownElem (addr : Bytes) (c : Cache) (sid : Nat) (body : Bytes) (t : Template)
@@ -410,8 +446,8 @@ theorem Ipfix.outer_locality (addr : Bytes) (fuelT : Nat) (stT : Ipfix.St) (errs
 outer loop, started after the header with cache `c`, decodes *on its own* exactly to its end without a
 fatal error (`hpre`), leaving the cache `c1` — this is how "a position between two sets" is
 expressed; `u` is skipped at `c1`, the cache at that point (`Ipfix.Skipped`; by
-`Ipfix.skipped_of_undecodable` / `Ipfix.skipped_of_unknownElem`: unknown template, reserved id, element
-missing from the model).  Then for every `post`, inserting `u` between `pre` and `post` changes neither
+`Ipfix.skipped_of_undecodable` / `Ipfix.skipped_of_unknownElem` / `Ipfix.skipped_of_noFields`: unknown template,
+reserved id, element missing from the model, template without fields).  Then for every `post`, inserting `u` between `pre` and `post` changes neither
 the decoded records, nor the resulting cache, nor whether / with which fatal error `Decode` fails (at
 most one more non-fatal error is reported).
 
@@ -447,6 +483,58 @@ example :
    by rw [Ipfix.outer_skips exAddr 2 _ [] exUnknown exData2 _
         (Ipfix.skipped_of_undecodable exAddr exCache 999 [1, 2, 3, 4, 5] (by decide) (by decide)
           (.inl ⟨by decide, by decide⟩)) rfl (by decide)]; rfl⟩
+
+/-! ### F30: the template record with field count 0
+
+`exZeroTplSet` is the template set `{259: field count 0; 260: sourceIPv4Address/4}` of the audit's input: the
+decoder installs 259 as a template without fields (`exZeroTpl`).  A data set for 259 — four octets, none, or set
+id 1 with five octets — between two data sets of template 256 is skipped and both neighbours are decoded. -/
+
+def exZeroTplSet : Bytes := [0, 2, 0, 16, 1, 3, 0, 0, 1, 4, 0, 1, 0, 8, 0, 4]
+def exZeroTpl : Template := ⟨259, 0, 0, [], []⟩
+def exTpl260 : Template := ⟨260, 1, 0, [], [⟨8, 4, 0⟩]⟩
+def exCacheZero : Cache := Cache.insert (Cache.insert exCache exAddr 259 exZeroTpl) exAddr 260 exTpl260
+def exZeroData : Bytes := setBytes 259 [1, 2, 3, 4]
+
+theorem exCacheZero_noFields : Ipfix.NoFields exCacheZero exAddr 259 :=
+  .inl ⟨by decide, exZeroTpl, by decide, rfl, rfl⟩
+
+set_option maxRecDepth 100000 in
+/-- the template set installs 259 as a template without fields -/
+example : (Ipfix.decode [] exAddr (ipfixHdr ++ (ipfixTpl ++ exZeroTplSet))).2 = exCacheZero := by decide
+
+set_option maxRecDepth 100000 in
+/-- non-vacuity of `Ipfix.decodeSet_skips_noFields` / `Ipfix.decode_skips'` for this kind: one set; the audit's
+message `[templates, data 256, data 259, data 256]` decodes to both records of template 256 (before the repair:
+`.error .emptyRec`, no record) -/
+example :
+    Ipfix.decodeSet exAddr 1 ⟨⟨exZeroData ++ exData2, 60⟩, exCacheZero, [exRec1]⟩ =
+      (⟨⟨exData2, 68⟩, exCacheZero, [exRec1]⟩, some .emptyRec) ∧
+    Ipfix.decodeSet exAddr 1 ⟨⟨setBytes 259 [] ++ exData2, 60⟩, exCacheZero, [exRec1]⟩ =
+      (⟨⟨exData2, 64⟩, exCacheZero, [exRec1]⟩, none) ∧
+    Ipfix.decodeSet exAddr 1 ⟨⟨setBytes 1 [1, 2, 3, 4, 5] ++ exData2, 60⟩, exCacheZero, [exRec1]⟩ =
+      (⟨⟨exData2, 69⟩, exCacheZero, [exRec1]⟩, some .emptyRec) ∧
+    (Ipfix.decode [] exAddr (ipfixHdr ++ (ipfixTpl ++ exZeroTplSet ++ exData1 ++ exZeroData ++ exData2))).1 =
+      .ok ([10, 56, 1, 2, 3], [exRec1, exRec2], [.emptyRec]) :=
+  ⟨Ipfix.decodeSet_skips_noFields exAddr 1 _ 259 [1, 2, 3, 4] exData2 (by decide) (by decide) (by decide) rfl
+      exCacheZero_noFields,
+   Ipfix.decodeSet_skips_noFields exAddr 1 _ 259 [] exData2 (by decide) (by decide) (by decide) rfl
+      exCacheZero_noFields,
+   Ipfix.decodeSet_skips_noFields exAddr 1 _ 1 [1, 2, 3, 4, 5] exData2 (by decide) (by decide) (by decide) rfl
+      (.inr rfl),
+   rfl⟩
+
+set_option maxRecDepth 100000 in
+example :
+    Ipfix.recordsOf (Ipfix.decode [] exAddr
+        (ipfixHdr ++ ((ipfixTpl ++ exZeroTplSet ++ exData1) ++ (exZeroData ++ exData2)))).1 =
+      Ipfix.recordsOf (Ipfix.decode [] exAddr (ipfixHdr ++ ((ipfixTpl ++ exZeroTplSet ++ exData1) ++ exData2))).1 ∧
+    Ipfix.recordsOf (Ipfix.decode [] exAddr (ipfixHdr ++ ((ipfixTpl ++ exZeroTplSet ++ exData1) ++ exData2))).1 =
+      [exRec1, exRec2] :=
+  ⟨(Ipfix.decode_skips [] exAddr ipfixHdr (ipfixTpl ++ exZeroTplSet ++ exData1) exData2 exZeroData _
+      [10, 56, 1, 2, 3] 16 60 exCacheZero [exRec1] [] rfl rfl
+      (Ipfix.skipped_of_noFields exAddr exCacheZero 259 [1, 2, 3, 4] (by decide) (by decide) exCacheZero_noFields)
+      (ok_ne_fuel (m := ([10, 56, 1, 2, 3], [exRec1, exRec2], [])) rfl)).1, rfl⟩
 
 /-- non-vacuity of `Ipfix.decodeSet_skips_unknownElem` (the IPFIX decoder looks the element up before
 reading the field); as `V9.ex_unknownElem` -/
@@ -508,5 +596,17 @@ theorem Ipfix.decode_skips' (c : Cache) (addr hdr pre post u : Bytes) (e : Optio
   let r := Ipfix.decode_skips c addr hdr pre post u e h k k1 c1 recs1 errs1 hh hpre hs
     (C02Flow.ipfix_terminates c addr (hdr ++ (pre ++ post)))
   ⟨r.1, r.2.1⟩
+
+/-! ## The tie of the fatal / non-fatal classification to the current source -/
+
+/-- **Tie (error classes)**: re-extracted on every run — the declaration of `nonfatalError` in ipfix/decoder.go and
+netflow/v9/decoder.go (the struct wrapper: as `type nonfatalError error`, the F4 defect, the type-switch case matches
+every error and a truncated datagram fabricates records) and every construction of one — are exactly the reviewed
+inventory in `Spec/Sites.lean`: IPFIX unknown template, zero-length record, element missing (scope / field loop) and,
+since the F30 repair, "failed to decodeData" = `Ipfix.nonfatalErr`; NetFlow v9 the same without the last =
+`Err.nonfatal`.  An error newly wrapped or unwrapped, or a changed declaration, breaks this obligation. -/
+theorem nonfatal_reviewed :
+    Gen.Sites.nonfatalIpfix = Spec.Sites.nonfatalIpfix ∧ Gen.Sites.nonfatalV9 = Spec.Sites.nonfatalV9 := by
+  decide +kernel
 
 end Vflow.C09
